@@ -84,7 +84,7 @@ func encItems(items []xitem) []int64 {
 				if g.vk != 0 {
 					out = encBytesStr(out, g.w1)
 					out = encBytesStr(out, g.w2)
-					if g.vk == 2 {
+					if g.vk >= 2 {
 						out = append(out, int64(g.q))
 					}
 					out = encBytesStr(out, g.val)
@@ -188,7 +188,7 @@ func decItems(a []int64) ([]xitem, bool) {
 				g.vk = int(r.next())
 				if g.vk != 0 {
 					g.w1, g.w2 = r.str(), r.str()
-					if g.vk == 2 {
+					if g.vk == 2 || g.vk == 3 {
 						g.q = byte(r.next())
 					} else {
 						g.vk = 1
@@ -500,8 +500,8 @@ func c11GenTagItem(r *Rng, pi bool, xmlSafe bool) xitem {
 			}
 			g.val = strings.ReplaceAll(r.PickStr(c11ValChunks)+r.PickStr(c11ValChunks), string(g.q), "")
 			g.val = strings.ReplaceAll(g.val, "\r\n", "\r")
-			if xmlSafe {
-				g.val = strings.ReplaceAll(g.val, "?>", "? >")
+			if pi {
+				g.val = strings.ReplaceAll(g.val, "?>", "? >") // the instruction would end there
 			}
 		}
 		// a bare name must not be followed by '=' (it would be its value): the next piece then has a name
@@ -515,6 +515,22 @@ func c11GenTagItem(r *Rng, pi bool, xmlSafe bool) xitem {
 		it.gpieces = append(it.gpieces, g)
 	}
 	it.ws = ws0()
+	if pi && r.Chance(1, 4) { // the last piece is a quoted value cut by the instruction's ?>
+		g := c11Gattr{lead: ws1(), name: genName(true), vk: 3, q: '"', w2: ws0()}
+		if len(it.gpieces) > 0 && it.gpieces[len(it.gpieces)-1].vk == 0 && g.name == "" {
+			g.name = "n"
+		}
+		if g.name != "" {
+			g.w1 = ws0()
+		}
+		if r.Bool() {
+			g.q = '\''
+		}
+		g.val = strings.ReplaceAll(r.PickStr(c11ValChunks)+r.PickStr([]string{"", "b", "?", " ", "x>"}), string(g.q), "")
+		g.val = strings.ReplaceAll(strings.ReplaceAll(g.val, "\r\n", "\r"), "?>", "? >")
+		it.gpieces = append(it.gpieces, g)
+		it.ws = ""
+	}
 	return it
 }
 
